@@ -695,45 +695,53 @@ package ring
 //@   trusted
 //@   assigns p2
 //@   ensures val(p2) == 0 - old(val(p1)) && mexp(p2) == old(mexp(p1)) && dom(p2) == old(dom(p1))
+//@   ensures uni(p2) == old(uni(p1))
 
 //@ afunc Ring.Reduce
 //@   trusted
 //@   assigns p2
 //@   ensures val(p2) == old(val(p1)) && mexp(p2) == old(mexp(p1)) && dom(p2) == old(dom(p1))
+//@   ensures uni(p2) == old(uni(p1))
 
 //@ afunc Ring.NTT
 //@   trusted
 //@   requires iscoef(p1)
 //@   assigns p2
 //@   ensures val(p2) == old(val(p1)) && mexp(p2) == old(mexp(p1)) && dom(p2) == 1
+//@   ensures uni(p2) == old(uni(p1))
 
 //@ afunc Ring.NTTLazy
 //@   trusted
 //@   requires iscoef(p1)
 //@   assigns p2
 //@   ensures val(p2) == old(val(p1)) && mexp(p2) == old(mexp(p1)) && dom(p2) == 1
+//@   ensures uni(p2) == old(uni(p1))
 
 //@ afunc Ring.INTT
 //@   trusted
 //@   requires isntt(p1)
 //@   assigns p2
 //@   ensures val(p2) == old(val(p1)) && mexp(p2) == old(mexp(p1)) && dom(p2) == 0
+//@   ensures uni(p2) == old(uni(p1))
 
 //@ afunc Ring.INTTLazy
 //@   trusted
 //@   requires isntt(p1)
 //@   assigns p2
 //@   ensures val(p2) == old(val(p1)) && mexp(p2) == old(mexp(p1)) && dom(p2) == 0
+//@   ensures uni(p2) == old(uni(p1))
 
 //@ afunc Ring.MForm
 //@   trusted
 //@   assigns p2
 //@   ensures val(p2) == old(val(p1)) && mexp(p2) == old(mexp(p1)) + 1 && dom(p2) == old(dom(p1))
+//@   ensures uni(p2) == old(uni(p1))
 
 //@ afunc Ring.IMForm
 //@   trusted
 //@   assigns p2
 //@   ensures val(p2) == old(val(p1)) && mexp(p2) == old(mexp(p1)) - 1 && dom(p2) == old(dom(p1))
+//@   ensures uni(p2) == old(uni(p1))
 
 // ring.Sampler (interface): error / secret samplers.  dist(s) is a ghost field naming the distribution.
 //@ afunc Sampler.AtLevel
@@ -750,3 +758,26 @@ package ring
 //@   trusted
 //@   requires iscoef(pol) && mexp(pol) == 0
 //@   draw dist(this), pol, add
+
+//@ afunc UniformSampler.Read
+//@   trusted a uniform element is uniform in either domain; its Montgomery exponent is a matter of interpretation (wlog in callers)
+//@   assigns pol
+//@   draw UNIFORM, pol
+//@   ensures dom(pol) == 2 && uni(pol)
+
+//@ afunc UniformSampler.AtLevel
+//@   trusted
+//@   returns_this
+
+//@ afunc Poly.Copy
+//@   trusted copies every row
+//@   assigns pol
+//@   ensures val(pol) == old(val(p1)) && mexp(pol) == old(mexp(p1)) && dom(pol) == old(dom(p1)) && uni(pol) == old(uni(p1))
+
+//@ afunc Poly.CopyLvl
+//@   trusted copies the rows up to level
+//@   assigns pol
+//@   ensures val(pol) == old(val(p1)) && mexp(pol) == old(mexp(p1)) && dom(pol) == old(dom(p1)) && uni(pol) == old(uni(p1))
+
+//@ afunc Poly.Resize
+//@   trusted changing the level keeps the represented element (its residue on the remaining moduli) and the identity of the polynomial
